@@ -286,7 +286,12 @@ pub fn run_worker(check: &mut dyn Check, tier: Tier, seed: u64, idx: u64, nworke
     let id = check.id().to_string();
     let mut acc = Acc { res: &mut res, fps: BTreeSet::new(), id: id.clone(), sample_budget: 2 };
     let parts = check.parts(tier);
+    // development aid: N2CHECK_ONLY_PARTS=a,b restricts a run to some parts (never set by ./check)
+    let only: Option<Vec<String>> = std::env::var("N2CHECK_ONLY_PARTS").ok().map(|s| s.split(',').map(|x| x.to_string()).collect());
     for (pi, part) in parts.iter().enumerate() {
+        if only.as_ref().map(|o| !o.iter().any(|x| x == part.name)).unwrap_or(false) {
+            continue;
+        }
         match part.kind {
             PartKind::Random { cases, main, ops, oplen, sched } => {
                 let mine = cases / nworkers + if idx < cases % nworkers { 1 } else { 0 };
